@@ -342,6 +342,19 @@ def run(ctx):
            ffa.dominates(loops[0].id, none_st[0]) and ffa.dominates(none_st[0], sf[0][0]) and ffa.dominates(sf[0][0], fin[0]) and ffa.on_every_normal_path(fin[0]) and ffa.once(sf[0][0]),
            "finalisation sequence", node=ffa.stmt(fin[0]))
     ctx.floor("C01.6", 5)
+    # ---- C01.7 field order of what the proposals hand to the live array ------------------------------
+    from ..rules import fieldorder as _fo
+    from .. import tables as _t
+    _prop = [prog.cls(_t.PROPOSAL)] + prog.subclasses(prog.cls(_t.PROPOSAL))
+    _stores = _fo.pool_stores(prog, [c_ for c_ in _prop if prog.cls(_t.IFP) not in prog.mro(c_)])
+    ctx.require(len(_stores) >= 3, "pool assignments (self.samples = ...) not found in the populate methods")
+    for _f, _s in _stores:
+        _ok, _why = _fo.canonical(prog, _f, _s.value)
+        ctx.ob("R-FIELDS", "C01.7", _f, "the pool is stored in canonical field order (model.names, then the non-sampling fields): numpy copies a pool row into the live array by position", _ok, _why, node=_s)
+    _pl = ctx.fn(_t.NS + ".populate_live_points")
+    from ..pat import find_stmt as _fst
+    ctx.ob("R-FIELDS", "C01.7", _pl, "the live array is allocated with the same canonical field order (names=self.model.names)", len(_fst("$$lp = empty_structured_array(self.nlive, names=self.model.names)", _pl.node)) == 1, "")
+    ctx.floor("C01.7", 4)
     ctx.assumptions.append("proposal classes return points whose logP/logL fields are what they claim (C09 covers the in-package proposals)")
 
 
@@ -426,6 +439,7 @@ MUTANTS = [
     {"id": "initial-accept-inf", "file": _F, "old": '                    if np.isfinite(live_point["logP"]) and np.isfinite(\n                        live_point["logL"]\n                    ):', "new": '                    if np.isfinite(live_point["logP"]):', "expect": "enters the initial live set"},
     {"id": "finalise-nlive-schedule", "file": _F, "old": "nlive=self.nlive - i)", "new": "nlive=self.nlive - i - 1)", "expect": "live count decreases"},
     {"id": "finalise-constant-nlive", "file": _F, "old": 'self.state.increment(p["logL"], nlive=self.nlive - i)', "new": 'self.state.increment(p["logL"])', "expect": "live count decreases"},
+    {"id": "pool-field-order", "file": "nessai/proposal/flowproposal.py", "old": "        return rfn.repack_fields(\n            x[self.model.names + config.livepoints.non_sampling_parameters]\n        )", "new": "        keep = self.model.names + config.livepoints.non_sampling_parameters\n        return rfn.drop_fields(x, [n for n in x.dtype.names if n not in keep], usemask=False)", "expect": "canonical field order"},
     {"id": "finalise-skip-append", "file": _F, "old": "            self.nested_samples.append(p)\n        self.live_points = None", "new": "            if i:\n                self.nested_samples.append(p)\n        self.live_points = None", "expect": "paired once per remaining point"},
 ]
 
